@@ -96,7 +96,7 @@ def check(ctx, src):
             if m is comp.rm and not (q.startswith("compile_") or q in ("digest_type_params", "render_quoted_form")):
                 continue
             targets.append((m, q, f))
-    ctx.require(len(targets) >= 60, f"only {len(targets)} compile functions found")
+    ctx.need(len(targets) >= 60, f"only {len(targets)} compile functions found")
     n_prod = 0
     for m, q, f in targets:
         ctx.functions.add(f"{m.rel}:{q}")
@@ -177,7 +177,7 @@ def check(ctx, src):
             else:
                 ctx.bad("R-LIN-VAR", key, f"the Result bound to `{tgt}` is only inspected (.expr/.force_expr/tests) and never placed in the output: its statements are dropped",
                         m.rel, c.lineno, witness="put (do (setv x 1) x) in this slot")
-    ctx.require(n_prod >= 85, f"only {n_prod} Result-producing call sites found (99 confirmed by hand)")
+    ctx.need(n_prod >= 85, f"only {n_prod} Result-producing call sites found (99 confirmed by hand)")
 
     # --- role level: value placed but statements nowhere -----------------------------------------
     for r in comp.registry:
@@ -221,7 +221,7 @@ def check(ctx, src):
     for n in ast.walk(cc):
         if isinstance(n, ast.If) and "is_unpack('mapping'" in norm(n.test):
             arm = n
-    ctx.require(arm is not None, "_compile_collect: the unpack-mapping arm was not found")
+    ctx.need(arm is not None, "_compile_collect: the unpack-mapping arm was not found")
     inner = [st for st in arm.body if isinstance(st, ast.If)]
     ok = False
     why = "the arm has no if/elif chain on its flags"
@@ -242,7 +242,7 @@ def check(ctx, src):
     ce = comp.cp.func("HyASTCompiler.compile_expression")
     ctx.require(ce is not None, "compile_expression not found")
     calls = [c for c in pyq.calls(ce) if isinstance(c.func, ast.Attribute) and c.func.attr == "_compile_collect"]
-    ctx.require(len(calls) == 1, "compile_expression: _compile_collect call not found")
+    ctx.need(len(calls) == 1, "compile_expression: _compile_collect call not found")
     a0 = calls[0].args[0] if calls[0].args else None
     ctx.check(isinstance(a0, ast.Name) and a0.id == "args" and any(k.arg == "with_kwargs" and getattr(k.value, "value", None) is True for k in calls[0].keywords),
               "ARGS", f"{comp.cp.rel}|compile_expression|collect(args, with_kwargs=True)", "the call's arguments are not passed whole to _compile_collect(args, with_kwargs=True)",
